@@ -176,6 +176,8 @@ def mode_criterion(p):
         true = float(d.min(axis=0).mean())
         newc = np.array([x[lab == k].mean(axis=0) for k in range(K)])
         cuts = sorted(set(rs.randint(1, N, size=rs.randint(1, 3)).tolist()))
+        if seed % 4 == 1:
+            cuts = sorted(set(rs.randint(1, N, size=rs.randint(5, 9)).tolist()))     # MANY row blocks (more than a reduction tree's fan-in), unequal sizes
         chunks = tuple(np.diff([0] + cuts + [N]).tolist())
         if seed % 3 == 0:
             c = np.round(c).astype(int)          # initial centroids typed as integers by the caller
@@ -185,7 +187,22 @@ def mode_criterion(p):
                 return None
             true = float(d.min(axis=0).mean())
             newc = np.array([x[lab == k].mean(axis=0) for k in range(K)])
-        for variant, data in (("numpy", x), ("dask%s" % (chunks,), da.from_array(x, chunks=(chunks, D)))):
+        variants = [("numpy", x), ("dask%s" % (chunks,), da.from_array(x, chunks=(chunks, D)))]
+        if seed % 5 == 2 and N < 100:
+            # integer-typed samples (int16 audio, uint8 pixels) with FRACTIONAL starting centroids
+            xi = np.round(x * 8).astype(np.int16)
+            ci = c.astype(float) * 8 + 0.37
+            di = ref_dist(xi.astype(float), ci)
+            labi = di.argmin(axis=0)
+            if len(set(labi)) == K:
+                for variant, data in (("int16 numpy", xi), ("int16 dask", da.from_array(xi, chunks=(chunks, D)))):
+                    m = KMeansMachine(K, init_method=ci.copy(), max_iter=1)
+                    m.fit(data)
+                    newi = np.array([xi[labi == k].astype(float).mean(axis=0) for k in range(K)])
+                    if not close(m.centroids_, newi, 1e-9) or not close(m.average_min_distance, float(di.min(axis=0).mean()), 1e-9):
+                        return {"input": {"x": xi.tolist(), "init_centroids": ci.tolist(), "variant": variant}, "observed": np.asarray(m.centroids_).tolist(), "expected": newi.tolist(),
+                                "what": "integer-typed samples with fractional starting centroids: the iteration does not start from the centroids given"}
+        for variant, data in variants:
             m = KMeansMachine(K, init_method=c.copy(), max_iter=1)
             m.fit(data)
             if not close(m.average_min_distance, true, 1e-9):
@@ -210,6 +227,9 @@ def mode_fit_loop(p):
             j = rs.randint(1, 10)
             L[j + 1] = L[j] * (1 + rs.choice([0.0, 1e-6, -1e-6, 9e-6]))
         thr = rs.choice([None, 1e-5, 1e-3])
+        if seed % 3 == 0:
+            k0 = int(rs.randint(2, 9))      # a threshold just below / above the relative change of some iteration
+            thr = abs((L[k0 - 1] - L[k0]) / L[k0 - 1]) * float(rs.choice([0.97, 1.03]))
         mx = rs.choice([None, K]) if thr is not None else K
         calls = []
         real_m, real_e = km.m_step, km.e_step
